@@ -6,5 +6,6 @@
 //verif:include ../C07/cose_content.go
 //verif:include ../C07/cose_verify.go
 //verif:harness H_C01_cose_verify
+//verif:harness H_C01_cose_verify_after
 //verif:harness H_C01_cose_verify_headers thorough-only
 package cose
